@@ -164,8 +164,9 @@ def sql_shift_rows(shifts: Dict[Tuple[int, str], List[int]]) -> Dict[Tuple[int, 
     return out
 
 
-def sql_calendar_rows(years: Sequence[int], shifts: Dict[int, List[int]]) -> Tuple[Dict[int, List[int]], Dict[int, List[List[int]]]]:
-    """DuckDB date builtins, vtl_time_agg_date and vtl_dateadd on every day of the years."""
+def sql_calendar_rows(years: Sequence[int], shifts: Dict[int, List[int]], units: Dict[int, str]
+                      ) -> Tuple[Dict[int, List[int]], Dict[int, List[List[int]]]]:
+    """DuckDB date builtins, vtl_time_agg_date and vtl_dateadd (shifts[y] x units[y]) on every day of the years."""
     c = conn()
     yr = c.execute(f"""SELECT y, CAST(DAYOFYEAR(MAKE_DATE(y,12,31)) = 366 AS INTEGER), DAYOFYEAR(MAKE_DATE(y,12,31)),
                               WEEKOFYEAR(MAKE_DATE(y,12,28)), {_day('MAKE_DATE(y,1,1)')},
@@ -175,6 +176,9 @@ def sql_calendar_rows(years: Sequence[int], shifts: Dict[int, List[int]]) -> Tup
     c.execute("DROP TABLE IF EXISTS dshifts")
     c.execute("CREATE TABLE dshifts(y INTEGER, k INTEGER, n INTEGER)")
     c.executemany("INSERT INTO dshifts VALUES (?,?,?)", [(y, k, n) for y, ns in shifts.items() for k, n in enumerate(ns)])
+    c.execute("DROP TABLE IF EXISTS dunits")
+    c.execute("CREATE TABLE dunits(y INTEGER, uo INTEGER, u VARCHAR)")
+    c.executemany("INSERT INTO dunits VALUES (?,?,?)", [(y, k, u) for y, us in units.items() for k, u in enumerate(us)])
     aggs = ", ".join(_encp(f"vtl_time_agg_date(d, {t!r})") for t in INDS)
     base = c.execute(f"""SELECT YEAR(d), {_day('d')}, YEAR(d), MONTH(d), DAY(d), DAYOFYEAR(d), ISOYEAR(d), WEEK(d), ISODOW(d),
                                 {_day('LAST_DAY(d)')}, QUARTER(d), {aggs}
@@ -183,7 +187,7 @@ def sql_calendar_rows(years: Sequence[int], shifts: Dict[int, List[int]]) -> Tup
     adds = c.execute(f"""SELECT y, {_day('d')}, k, u, {_day('vtl_dateadd(CAST(d AS TIMESTAMP), n, u)')}
                          FROM (SELECT y, CAST(MAKE_DATE(y,1,1) + INTERVAL (i) DAY AS DATE) AS d
                                FROM yrs, range(0, 366) t(i) WHERE i < DAYOFYEAR(MAKE_DATE(y,12,31))) dd
-                              JOIN dshifts USING (y), (VALUES ('A',1),('S',2),('Q',3),('M',4),('W',5),('D',6)) uu(u, uo)
+                              JOIN dshifts USING (y) JOIN dunits USING (y)
                          ORDER BY d, k, uo""").fetchall()
     rows = _group(base, 1)
     add_map: Dict[Tuple[int, int], List[int]] = {}
@@ -343,7 +347,7 @@ def coq_fp(kind: str, keys: Sequence[Tuple], args: Dict[Tuple, str], tag: str) -
         else:
             (y,) = k
             exprs.append(f"({kind} {common.coq_z(y)}{args.get(k, '')})")
-    shard = max(4, -(-len(exprs) // (4 * common.NCPU)))
+    shard = max(4, -(-len(exprs) // common.NCPU))   # one coqc per core: starting coqc + loading the libraries costs ~3 s CPU
     vals = common.coq_eval(HEADER, exprs, tag, shard=shard, timeout=1700)
     return {k: v for k, v in zip(keys, vals)}
 
